@@ -101,8 +101,8 @@ func (s *sim) checkBlockStep(parent *blockRec, blk *blockRec) {
 		return
 	}
 	if ps, _ := parent.post.st.Slot(); uint64(ps) < blk.slot {
-		if !s.checkSlotsStep(parent.post, pre, blk.slot, fmt.Sprintf("before the block at slot %d", blk.slot)) {
-			return
+		if !s.checkSlotsStep(parent.post, pre, blk.slot, fmt.Sprintf("before the block at slot %d", blk.slot)) && s.stop {
+			return // (a slots finding that belongs to another property than the one under check does not end the step)
 		}
 	}
 	m, err := s.modelOf(pre.st)
